@@ -3,6 +3,12 @@
      Q <id> num <0|1> <enc>     -> A <id> <n_char> <value | - | FAULT:<kind>>    (0: code as found, 1: with numreader_div_zero.diff)
      Q <id> getval <0|1> <enc>  -> same for ILLget_value
      Q <id> print <p/q>      -> A <id> <enc>
+     Q <id> lpwrite + SLP block            -> A <id> <enc line>*       (IO/LpWrite.write_lp)
+     Q <id> fixnames <prefix char> <enc name>*   -> A <id> <enc new name>*   (IO/LpNames.fix_names)
+     Q <id> defobj <enc row name>*               -> A <id> <enc>             (the objective name invented for a problem without one)
+     Q <id> lprt + SLP block               -> A <id> <wf_lpb 0|1> <OK|ERR|FLT|FUEL> <equiv_by_name P (read_lp (write_lp P))>
+     Q <id> mpswrite + MLP block           -> A <id> <enc line>*       (IO/MpsWrite.write_mps)
+     Q <id> lpread <0|1> <enc text> + (NONE | SLP block of the library's result) -> A <id> <OK|ERR|FLT|FUEL> <agree> <ncols> <nrows>
 *)
 open Model
 open Glue
@@ -75,6 +81,48 @@ let read_nlp ic : nlp =
     { n_max = (mx = "1"); n_cols = cols; n_rows = rows }
   | _ -> failwith "NLP header expected"
 
+(* SLP <max> <probname|-> <objname> <intmarker> <ncols> <nrows> ; SC <name> <obj> <lo> <up> <int> ;
+   SR <name> <sense> <rhs> <range> <k> (<name> <coef>)*      (names %-encoded) *)
+let read_slp_hdr ic hdr : llp =
+  match hdr with
+  | [ "SLP"; mx; pn; on; im; nc; nr ] ->
+    let nc = int_of_string nc and nr = int_of_string nr in
+    let cols = List.init nc (fun _ -> match next_tokens ic with
+      | Some [ "SC"; nm; o; l; u; it ] ->
+        { lc_name = chars_of_string (dec nm); lc_obj = q_raw o; lc_lo = q_raw l; lc_up = q_raw u; lc_int = (it = "1") }
+      | _ -> failwith "SC line expected") in
+    let rows = List.init nr (fun _ -> match next_tokens ic with
+      | Some ("SR" :: nm :: sn :: rhs :: rg :: _k :: rest) ->
+        let rec ents = function
+          | i :: v :: r -> (chars_of_string (dec i), q_raw v) :: ents r
+          | [] -> [] | _ -> failwith "bad SR line" in
+        { lr_name = chars_of_string (dec nm); lr_sense = sense_of sn; lr_rhs = q_raw rhs; lr_range = q_raw rg; lr_ent = ents rest }
+      | _ -> failwith "SR line expected") in
+    { l_probname = (if pn = "-" then None else Some (chars_of_string (dec pn))); l_max = (mx = "1");
+      l_objname = chars_of_string (dec on); l_intmarker = (im = "1"); l_cols = cols; l_rows = rows }
+  | _ -> failwith "SLP header expected"
+
+(* MLP <max> <probname> <objname> <intmarker> <rangeval> <ncols> <nrows> ; MC <name> <obj> <lo> <up> <int> <k> (<rowname> <coef>)* ;
+   MR <name> <sense> <rhs> <range>      (column-wise, names %-encoded) *)
+let read_mlp_hdr ic hdr : mlp =
+  match hdr with
+  | [ "MLP"; mx; pn; on; im; rv; nc; nr ] ->
+    let nc = int_of_string nc and nr = int_of_string nr in
+    let cols = List.init nc (fun _ -> match next_tokens ic with
+      | Some ("MC" :: nm :: o :: l :: u :: it :: _k :: rest) ->
+        let rec ents = function
+          | i :: v :: r -> (chars_of_string (dec i), q_raw v) :: ents r
+          | [] -> [] | _ -> failwith "bad MC line" in
+        { mc_name = chars_of_string (dec nm); mc_obj = q_raw o; mc_lo = q_raw l; mc_up = q_raw u; mc_int = (it = "1"); mc_ent = ents rest }
+      | _ -> failwith "MC line expected") in
+    let rows = List.init nr (fun _ -> match next_tokens ic with
+      | Some [ "MR"; nm; sn; rhs; rg ] ->
+        { mr_name = chars_of_string (dec nm); mr_sense = sense_of sn; mr_rhs = q_raw rhs; mr_range = q_raw rg }
+      | _ -> failwith "MR line expected") in
+    { m_probname = chars_of_string (dec pn); m_max = (mx = "1"); m_objname = chars_of_string (dec on);
+      m_intmarker = (im = "1"); m_rangeval = (rv = "1"); m_cols = cols; m_rows = rows }
+  | _ -> failwith "MLP header expected"
+
 let show_bstmt b = match b with
   | BFix v -> "FIX " ^ show_q v | BFreeS -> "FREE" | BLo v -> "LO " ^ show_q v
   | BUp v -> "UP " ^ show_q v | BLoUp (l, u) -> "LOUP " ^ show_q l ^ " " ^ show_q u
@@ -133,6 +181,49 @@ let () =
              | [] -> [] | _ -> failwith "section arity" in
            let ls = print_section (pairs items) in
            Printf.printf "A %s %s\n" id (if ls = [] then "EMPTY" else String.concat " " (List.map (fun l -> enc (string_of_chars l)) ls))
+         | "lpwrite", [] ->
+           (* the lines ILLwrite_lp prints for the problem (after name repair), %-encoded *)
+           let p = (match next_tokens ic with Some h -> read_slp_hdr ic h | None -> failwith "SLP expected") in
+           let ls = write_lp !sentinel p in
+           Printf.printf "A %s %s\n" id (String.concat " " (List.map (fun l -> enc (string_of_chars l)) ls))
+         | "fixnames", pf :: names ->
+           (* fix_names of lp.c: prefix character, then the names of the table in index order *)
+           let ns = List.map (fun n -> chars_of_string (dec n)) names in
+           Printf.printf "A %s %s\n" id (String.concat " " (List.map (fun l -> enc (string_of_chars l)) (fix_names pf.[0] ns)))
+         | "defobj", names ->
+           let ns = List.map (fun n -> chars_of_string (dec n)) names in
+           Printf.printf "A %s %s\n" id (enc (string_of_chars (default_objname ns)))
+         | "lprt", [] ->
+           (* the statement of C08_lp_roundtrip evaluated on one problem: <wf_lpb> <outcome of read_lp_res (write_lp P)> <equiv_by_name P P'> *)
+           let p = (match next_tokens ic with Some h -> read_slp_hdr ic h | None -> failwith "SLP expected") in
+           let wf = wf_lpb !sentinel p in
+           let r = read_lp_res true !sentinel (write_lp !sentinel p) in
+           let tag, eqv = (match r with
+             | PrOk p' -> ("OK", equiv_by_name (to_nlp p) (to_nlp p'))
+             | PrErr -> ("ERR", false) | PrFlt -> ("FLT", false) | PrFuel -> ("FUEL", false)) in
+           Printf.printf "A %s %s %s %s\n" id (if wf then "1" else "0") tag (string_of_bool eqv)
+         | "mpswrite", [] ->
+           let p = (match next_tokens ic with Some h -> read_mlp_hdr ic h | None -> failwith "MLP expected") in
+           let ls = write_mps !sentinel p in
+           Printf.printf "A %s %s\n" id (String.concat " " (List.map (fun l -> enc (string_of_chars l)) ls))
+         | "lpread", [ v; t ] ->
+           (* model reader on the text; then NONE (the library rejected the file) or the SLP block of what the library delivered.
+              answer: <OK|ERR|FLT|FUEL> <agree> <ncols> <nrows> *)
+           let r = read_lp_res (v = "1") !sentinel (split_lines (chars_of_string (dec t))) in
+           let lib = (match next_tokens ic with
+             | Some [ "NONE" ] -> None
+             | Some h -> Some (read_slp_hdr ic h)
+             | None -> failwith "NONE or SLP expected") in
+           let tag = (match r with PrOk _ -> "OK" | PrErr -> "ERR" | PrFlt -> "FLT" | PrFuel -> "FUEL") in
+           let agree, nc, nr = (match r, lib with
+             | PrOk p, Some l ->
+               let a = to_nlp p and b = to_nlp l in
+               (equiv_by_name a b && equiv_by_name b a && List.length p.l_cols = List.length l.l_cols && List.length p.l_rows = List.length l.l_rows,
+                List.length p.l_cols, List.length p.l_rows)
+             | PrOk p, None -> (false, List.length p.l_cols, List.length p.l_rows)
+             | _, None -> (true, 0, 0)
+             | _, Some _ -> (false, 0, 0)) in
+           Printf.printf "A %s %s %s %d %d\n" id tag (string_of_bool agree) nc nr
          | "parseline", [ v; l ] ->
            (match parse_line (v = "1") (chars_of_string (dec l)) with
             | None -> Printf.printf "A %s NONE\n" id
